@@ -1225,6 +1225,42 @@ static TypeInfo *parse_generic_type_args(Stage1Parser *p, const char *base_name)
     return type_info;
 }
 
+/* Operand of an infix or unary operator: a primary followed by ITS OWN postfix forms
+ * (obj.field, tuple.0), so that `1 + p.x` is `1 + (p.x)` and `-p.x` is `-(p.x)`.
+ * Union construction (Name.Variant { ... }) is left to parse_expression as before. */
+static ASTNode *parse_primary(Stage1Parser *p);
+static ASTNode *parse_operand(Stage1Parser *p) {
+    ASTNode *expr = parse_primary(p);
+    while (expr && match(p, TOKEN_DOT)) {
+        Token *dot_tok = current_token(p);
+        Token *next = peek_token(p, 1);
+        Token *after = peek_token(p, 2);
+        if (!dot_tok || !next) break;
+        if (next->token_type == TOKEN_NUMBER) {
+            int line = dot_tok->line, column = dot_tok->column;
+            advance(p);  /* '.' */
+            ASTNode *index_node = create_node(AST_TUPLE_INDEX, line, column);
+            index_node->as.tuple_index.tuple = expr;
+            index_node->as.tuple_index.index = (int)atoll(next->value);
+            advance(p);  /* number */
+            expr = index_node;
+            continue;
+        }
+        if (next->token_type != TOKEN_IDENTIFIER || !next->value) break;
+        if (after && after->token_type == TOKEN_LBRACE && expr->type == AST_IDENTIFIER && expr->as.identifier &&
+            expr->as.identifier[0] >= 'A' && expr->as.identifier[0] <= 'Z' &&
+            next->value[0] >= 'A' && next->value[0] <= 'Z') break;  /* union construction */
+        int line = dot_tok->line, column = dot_tok->column;
+        advance(p);  /* '.' */
+        ASTNode *field_access = create_node(AST_FIELD_ACCESS, line, column);
+        field_access->as.field_access.object = expr;
+        field_access->as.field_access.field_name = strdup(next->value);
+        advance(p);  /* field name */
+        expr = field_access;
+    }
+    return expr;
+}
+
 /* Parse primary expression */
 static ASTNode *parse_primary(Stage1Parser *p) {
     Token *tok = current_token(p);
@@ -1240,7 +1276,7 @@ static ASTNode *parse_primary(Stage1Parser *p) {
             int line = tok->line;
             int column = tok->column;
             advance(p);  /* consume 'not' */
-            ASTNode *operand = parse_primary(p);
+            ASTNode *operand = parse_operand(p);
             if (!operand) return NULL;
             ASTNode *not_node = create_node(AST_PREFIX_OP, line, column);
             not_node->as.prefix_op.op = TOKEN_NOT;
@@ -1255,7 +1291,7 @@ static ASTNode *parse_primary(Stage1Parser *p) {
             int line = tok->line;
             int column = tok->column;
             advance(p);  /* consume '-' */
-            ASTNode *operand = parse_primary(p);
+            ASTNode *operand = parse_operand(p);
             if (!operand) return NULL;
             ASTNode *neg_node = create_node(AST_PREFIX_OP, line, column);
             neg_node->as.prefix_op.op = TOKEN_MINUS;
@@ -2451,7 +2487,7 @@ static ASTNode *parse_expression(Stage1Parser *p) {
                 int op_col = cur->column;
                 advance(p);  /* consume operator */
 
-                ASTNode *right = parse_primary(p);
+                ASTNode *right = parse_operand(p);
                 if (!right) {
                     parser_error(p, op_line, op_col, "Error at line %d, column %d: Expected expression after operator\n",
                             op_line, op_col);
